@@ -104,6 +104,33 @@ def _include_bytes_scenarios(args):
                 out.append(({'where': pname, 'content': cname, 'cwd': cwd, 'via': 'api', 'written': written}, data, got,
                             rec['status'] if rec['status'] != 'ok' else 'ok'))
             os.chdir(root)
+    # nested: two included files in different directories, each with its OWN same-named neighbour blob (every include_bytes
+    # must find the file beside the file that names it, whatever was read before), with and without a -i directory
+    for d in ('proj', 'proj/sub', 'inc'):
+        for fn in os.listdir(os.path.join(root, d)):
+            p = os.path.join(root, d, fn)
+            if os.path.isfile(p):
+                os.unlink(p)
+    for d in ('proj/a', 'proj/b', 'proj/b/c'):
+        os.makedirs(os.path.join(root, d), exist_ok=True)
+    blobs = {'proj/a': contents['text'], 'proj/b': contents['odd'], 'proj/b/c': b'\x07' * 5}
+    for d, data in blobs.items():
+        with open(os.path.join(root, d, 'blob.bin'), 'wb') as f:
+            f.write(data)
+        with open(os.path.join(root, d, 'part.asm'), 'w') as f:
+            f.write('include_bytes blob.bin\n' + ('include c/part.asm\ninclude_bytes blob.bin\n' if d == 'proj/b' else ''))
+    main = os.path.join(root, 'proj', 'nested.asm')
+    with open(main, 'w') as f:
+        f.write('db 1\ninclude a/part.asm\ninclude b/part.asm\ninclude a/part.asm\ndb 2\n')
+    want = b'\x01' + blobs['proj/a'] + blobs['proj/b'] + blobs['proj/b/c'] + blobs['proj/b'] + blobs['proj/a'] + b'\x02'
+    for incs in ([], ['inc']):
+        for cwd in ('proj', 'proj/a', 'elsewhere'):
+            os.chdir(os.path.join(root, cwd))
+            rec = impl.assemble_recorded(main, compress=False, include_dirs=[os.path.join(root, i) for i in incs])
+            got = rec['out'] if rec['status'] == 'ok' else None
+            out.append(({'where': 'nested' + ('+incdir' if incs else ''), 'content': 'per-directory', 'cwd': cwd, 'via': 'api', 'written': 'blob.bin'},
+                        want[1:-1], got, rec['status'] if rec['status'] != 'ok' else 'ok'))
+        os.chdir(root)
     # the CLI in a subprocess for one content per place
     for pname, (fdir, written, incs) in places.items():
         data = contents['text']
@@ -194,7 +221,7 @@ def c10(run, scratch):
                             'x values (width 1: -140..270; width 2: all of -32780..65545 in the thorough tier, boundary bands otherwise; widths 4/8: +-3 around '
                             '-2^(8w), -2^(8w-1), 0, 2^(8w-1), 2^(8w) of every smaller width too, interior values, 2^40, 2^65); every string of <= 2 (3) atoms over '
                             '21 atoms (ASCII, space, # " \' , ( ), 2/3/4-byte UTF-8, \\n \\t \\\\ \\\' \\" \\x41 \\xe9 \\101 \\0); include_bytes of 5 contents found beside the source, '
-                            'in a subdirectory, in a -i directory, run from 4 working directories (API) and 2 (CLI subprocess); non-trivial = distinct points')
+                            'in a subdirectory, in a -i directory, run from 4 working directories (API) and 2 (CLI subprocess), plus a nested tree where three included files in different directories each name their own neighbour blob.bin (with and without a -i directory); non-trivial = distinct points')
     for p in pts[:2]:
         run.sample({'directive': p[1], 'value': _val(p[2], p[3]), 'expected': p[4]})
     for p in spts[40:42]:
@@ -496,6 +523,17 @@ def _include_batch(args):
         main = os.path.relpath(main_abs, cwd) if sc['rel'] else main_abs
         incs = [os.path.join(root, 'inc1'), os.path.join(root, 'inc2')]
         res = {'sc': sc, 'problems': []}
+        if not expected:
+            # no searched directory holds the file (only a decoy in the working directory / an unsearched one does): must be refused
+            rec = impl.assemble_recorded(main, include_dirs=incs)
+            if rec['status'] == 'ok' or rec['status'][0] != 'AssemblerError':
+                res['problems'].append(('LookupDocumented', 'an include that no searched directory satisfies was not refused: %s %s' % (
+                    str(rec['status'])[:150], rec['out'].hex() if rec['out'] else None)))
+            res['out'] = None
+            res['refused'] = True
+            out.append(res)
+            os.chdir(base)
+            continue
         # (B) provenance of the lines the real reader returns
         try:
             lines = a.read_lines(main, include_dirs=incs)
@@ -555,11 +593,12 @@ def c14(run, scratch):
         scs = rng.sample(scs, 5000)
     cli_every = 60 if run.tier == 'quick' else 12
     jobs = [(scratch, scs[k::32], run.seed * 100 + k, cli_every) for k in range(32)]
-    total, ncli, by_out = 0, 0, {}
+    total, ncli, by_out, nref = 0, 0, {}, 0
     with ProcessPoolExecutor(max_workers=16) as ex:
         for part in ex.map(_include_batch, jobs):
             for res in part:
                 total += 1
+                nref += 1 if res.get('refused') else 0
                 ncli += 1 if res.get('cli') else 0
                 sc = res['sc']
                 for clause, what in res['problems']:
@@ -571,14 +610,17 @@ def c14(run, scratch):
     for key, outs in by_out.items():
         if len(outs) > 1:
             run.violation('CwdIndependent', {'depth': key[0]}, {'tree': key, 'distinct_outputs': sorted(str(o) for o in outs)})
+    if nref < 50:
+        raise tlc.TlcFailure('non-vacuity: only %d scenarios with an unresolvable include' % nref)
+    run.coverage['unresolvable_include_scenarios'] = nref
     run.coverage['traces_validated_against_impl'] = total
     run.coverage['evaluations'] = total
     run.coverage['distinct_nontrivial'] = total
     run.coverage['scenarios_enumerated_by_tlc'] = r.distinct - 1
     run.coverage['cli_subprocess_runs'] = ncli
     run.coverage['exhaustive'] = run.tier == 'thorough'
-    run.coverage['rule'] = ('TLC enumerates 15,120 include scenarios (depth 1-3, include line first/middle/last, each included file beside its includer / in sub/ / in -i dir inc1 / inc2, '
-                            'same-named decoy in the working directory or in an unsearched directory, 5 working directories, absolute or relative main path, quoted or bare file name) '
+    run.coverage['rule'] = ('TLC enumerates the include scenarios (depth 1-3, include line first/middle/last, each included file beside its includer / in sub/ / in -i dir inc1 / inc2, '
+                            'same-named decoy in the working directory or in an unsearched directory, the deepest file present or existing only as such a decoy (then the include must be refused), 5 working directories, absolute or relative main path, quoted or bare file name) '
                             'and AsmInclude!Flatten gives the acceptable flattenings with provenance; the harness materialises each tree, compares read_lines\' (file, line, text) '
                             'sequence with them, assembles the tree and the spliced text (bytes, labels, constants must agree) and runs the CLI in a subprocess for a sample; '
                             'the quick tier draws 5,000 scenarios (seeded), the thorough tier runs all')
